@@ -111,23 +111,35 @@ CHECKS["C20"] = dict(
 CHECKS["C10"] = dict(
     level="model_checking", engine="X",
     technique="CrossHair symbolic execution (z3) of the real PathFinder.propagate_taint on every small typed state-flow graph "
-              "built through the real StateFlowGraph/SFGNode/SFGEdge, compared with the least fixpoint of the documented edge rules",
+              "built through the real StateFlowGraph/SFGNode/SFGEdge, compared with the least fixpoint of the documented edge rules; "
+              "program leg: real `main.py run` on generated programs, CrossHair (z3) executes the reference interpreter with "
+              "identity-tracked source values for all unknown inputs and compares arrivals at sinks with the reported flows",
     text="Kernel-level bounded model checking of taint completeness: for every state-flow graph within the node bound (edge "
          "presence/kind/position, statement kind and source chosen by the solver) the real propagation taints at least "
          "every symbol and state in the least fixpoint of the rules of docs 6-2. CONFIRMED = slice exhausted. The question "
-         "whether the semantic phases build a graph that contains the program's flows is the program-level leg and is not "
-         "part of this check.",
+         "whether the semantic phases build a graph that contains the program's flows is decided by the program leg: 13 flowing "
+         "programs (copies, operators, branches, parameters, returns, fields, constructor, list elements), under the plain rule "
+         "set and under rules restricted per unit and line; for all inputs every source value arriving at argument 0 of a sink "
+         "must be a reported flow with exactly those two statements.",
     note="Trusted: CrossHair/z3 (graph shape is an enumerative variable), the 50-line reference fixpoint, disjoint symbol/state ids.",
     design="4/C10")
 CHECKS["C11"] = dict(
     level="model_checking", engine="X",
     technique="CrossHair symbolic execution (z3) of the real propagate_taint (no taint outside the least fixpoint) and of the real "
-              "TaintRuleApplier.get_sink_tag_by_rules over operand positions x rule targets",
+              "TaintRuleApplier.get_sink_tag_by_rules over operand positions x rule targets x rule restrictions; program leg: real "
+              "`main.py run` under 14 rule sets, each reported flow decided by z3 as Horn entailment over a dependence system "
+              "generated from lian's GIR rows (unsat of clauses /\\ source /\\ not sink-argument = justified)",
     text="Kernel-level bounded model checking of flow justification: on every state-flow graph within the node bound the real "
          "propagation taints nothing outside the least fixpoint of the documented rules; for a call sink with operands at "
          "positions 0..2 (absent/clean/tainted) and every 1-2 element target list over the known keywords, the wildcard, the "
          "empty and unknown targets, the sink tag equals the union over the designated positions and the call never raises; "
-         "a rule of another operation contributes nothing. CONFIRMED = slice exhausted.",
+         "a rule of another operation contributes nothing, a rule restricted to another unit or line designates nothing (alone "
+         "or beside an unrestricted rule). Program leg: 33 programs x 14 rule sets (empty, other names, other language, "
+         "restricted by unit / line, other argument position, extended): every reported flow starts at a statement matching a "
+         "source rule in scope, ends at one matching a sink rule in scope, the designated argument depends on the source value "
+         "under the coarsest accepted reading (flow-, context-insensitive, object-granular, opaque calls), and extending the "
+         "rules loses no flow. A CrossHair leg confirms for all inputs that the dependence reading over-approximates what "
+         "dynamically arrives at sinks. CONFIRMED = slice exhausted.",
     note="Trusted: CrossHair/z3, the reference fixpoint and the position table (written from TAG_KEYWORD's documentation in "
          "rule_manager.Rule).",
     design="4/C11")
@@ -155,7 +167,8 @@ CHECKS["C01"] = dict(
          "forms, call forms, classes, containers, and all control-flow skeletons up to the size bound) the solver decides "
          "equality of observable behaviour for ALL argument vectors (unbounded ints for loop-free programs, small ranges where "
          "arguments bound loops); CONFIRMED = every path of every program in the slice exhausted. The family is the bound; "
-         "known lowering defects are confined to witness programs listed in known_findings.json.",
+         "known lowering defects are confined to witness programs listed in known_findings.json. A project-size leg lowers one "
+         "project of 1100 (thorough: 3000) files, requires GIR for every file and decides the first and last numbered units.",
     note="Trusted: CPython as the semantics of Python, the reference GIR interpreter (vlib/gir_interp.py), CrossHair/z3. "
          "lian's frontend code itself runs concretely (tree-sitter cannot be made symbolic).",
     design="4/C01")
@@ -168,10 +181,12 @@ CHECKS["C04"] = dict(
     text="Bounded model checking over branch-decision vectors: for every method of every program in the enumerated Python "
          "family and ALL entry arguments (every combination of branch outcomes; loop counters 0..3), the first executed "
          "statement is an entry node, every consecutively executed pair is an edge of semantic_p1/cfg, and the last statement "
-         "before leaving has an edge to the exit; plus a concrete scan that no node belongs to another method. CONFIRMED = "
-         "all paths of all programs in the slice exhausted.",
+         "before leaving has an edge to the exit; plus a concrete scan that no node belongs to another method. The same "
+         "obligation is decided for the C02 core programs rendered in all seven frontends (for with init/condition/update, "
+         "while, else-if chains, conditional expressions, C-style break/continue). CONFIRMED = all paths of all programs in "
+         "the slice exhausted.",
     note="Trusted: the reference interpreter's trace convention (DESIGN section 10), CrossHair/z3. lian's CFG builder runs "
-         "concretely; Python frontend only in this round.",
+         "concretely.",
     design="4/C04")
 
 CHECKS["C06"] = dict(
@@ -241,8 +256,10 @@ CHECKS["C02"] = dict(
     technique="per (core program, frontend): the real lian frontend lowers the rendering in that language (main.py lang, seven "
               "frontends in one project); CrossHair (z3) symbolically co-executes CPython on the Python rendering and lian's GIR "
               "rows under ONE reference interpreter with ONE instruction vocabulary, for all entry arguments",
-    text="Translation validation across frontends: 31 core programs (arithmetic, comparisons, logical operators, if/else, while, "
-         "counted for, break/continue, calls, recursion) x 7 frontends; for each pair the solver decides equality of outputs "
+    text="Translation validation across frontends: 62 core programs (arithmetic, comparisons and arithmetic with a literal on "
+         "either side, nested and double unary operators, unparenthesised precedence/associativity, compound assignment, ++/--, "
+         "logical operators, if/else, else-if chains, conditional expressions, while, counted for, break/continue, calls, "
+         "recursion) x 7 frontends; for each pair the solver decides equality of outputs "
          "and return value for all arguments; an operation or operand column outside the shared vocabulary makes a program "
          "non-executable and is a divergence. Failing construct x frontend cells are listed individually as known findings; "
          "the matrix defended is written to evidence on every run.",
